@@ -17,6 +17,7 @@ PROPS = [f"C{i:02d}" for i in range(1, 21)]
 def run_property(prop: str, tier: str, repo_root=None, quiet: bool = False) -> int:
     started = time.time()
     seed = int(os.environ.get("VERIF_SEED", "0") or 0)
+    ctx = None
     try:
         repo = Repo(repo_root)
         ctx = Ctx(prop, repo, tier)
@@ -24,8 +25,16 @@ def run_property(prop: str, tier: str, repo_root=None, quiet: bool = False) -> i
         mod.run(ctx)
         return finish(ctx, started, seed)
     except AnalysisError as error:
+        # the analysis could not be completed; violations established before that point stand
+        rc = 2
+        if ctx is not None and ctx.findings:
+            try:
+                if finish(ctx, started, seed, partial=str(error)) == 1:
+                    rc = 1
+            except AnalysisError:
+                pass
         print(f"ANALYSIS-ERROR property={prop} {error}")
-        return 2
+        return rc
     except Exception as error:  # internal bug: never masquerade as a violation
         traceback.print_exc()
         print(f"ANALYSIS-ERROR property={prop} internal error {type(error).__name__}: {error}")
